@@ -17,7 +17,7 @@ from harness import text as T
 from harness import textcheck as TC
 from props import _text as X
 
-PROPS = ["Octave.Props.C02", "Octave.Props.C02lists", "Octave.Props.C02flat", "Octave.Props.C02blocks", "Octave.Props.C02comments", "Octave.Props.C02orphans", "Octave.Props.C01roundtrip", "Octave.Props.C01tree", "Octave.Props.C01comments", "Octave.Props.C01meta", "Octave.Props.C01sections", "Octave.Props.C01lists", "Octave.Props.C01ctree", "Octave.Props.C01unified", "Octave.Props.C01document", "Octave.Props.C01master", "Octave.Props.C01maps", "Octave.Props.C01nested"]
+PROPS = ["Octave.Props.C02", "Octave.Props.C02lists", "Octave.Props.C02flat", "Octave.Props.C02blocks", "Octave.Props.C02comments", "Octave.Props.C02orphans", "Octave.Props.C01roundtrip", "Octave.Props.C01tree", "Octave.Props.C01comments", "Octave.Props.C01meta", "Octave.Props.C01sections", "Octave.Props.C01lists", "Octave.Props.C01ctree", "Octave.Props.C01unified", "Octave.Props.C01document", "Octave.Props.C01master", "Octave.Props.C01maps", "Octave.Props.C01nested", "Octave.Props.C02orphantree"]
 
 
 def kf_frontmatter_with_sentinel(case) -> bool:
